@@ -84,14 +84,17 @@ def w_parse(case):
             # C08: every reference at any depth resolves to a declaration of the tagged kind
             bad = []
 
+            # looked up in the declaration lists themselves (not through the tree's helper methods): a reference
+            # needs a declaration of its own kind; a namesake of the other kind does not disturb it
+            snames = {x.name for x in fcp.structs}
+            enames = {x.name for x in fcp.enums}
+
             def walk(t, where):
                 if isinstance(t, StructType):
-                    x = fcp.get_type(t)
-                    if x.is_nothing() or type(x.unwrap()).__name__ != "Struct":
+                    if t.name not in snames:
                         bad.append(where + ":" + t.name)
                 elif isinstance(t, EnumType):
-                    x = fcp.get_type(t)
-                    if x.is_nothing() or type(x.unwrap()).__name__ != "Enum":
+                    if t.name not in enames:
                         bad.append(where + ":" + t.name)
                 elif isinstance(t, (ArrayType, DynamicArrayType, OptionalType)):
                     walk(t.underlying_type, where)
@@ -227,7 +230,10 @@ def gen_desc(rng, max_decls=8, used=None):
             items = []
             for j in range(rng.randint(1, 4)):
                 if rng.random() < 0.3:
-                    items.append(("signal", rng.choice(WORDS) + str(j),
+                    # signal block names may repeat inside one binding: every block stays, in source order
+                    prior = [it[1] for it in items if it[0] == "signal"]
+                    sname = rng.choice(prior) if prior and rng.random() < 0.3 else rng.choice(WORDS) + str(j)
+                    items.append(("signal", sname,
                                   [(rng.choice(["endianess", "mux_count", "mux_signal", "scale"]) , rnd_value(rng)) for _ in range(rng.randint(1, 3))]))
                 else:
                     items.append(("field", rng.choice(["id", "bus", "device", "period", "endianess", "note"]), rnd_value(rng)))
@@ -362,7 +368,10 @@ def wordlike(tok):
     return c.isalnum() or c in "_+-." or tok[-1].isalnum()
 
 
-COMMENTS = [" /* c */ ", " // line comment\n", "/* multi\n line */", "/**/", " //\n"]
+COMMENTS = [" /* c */ ", " // line comment\n", "/* multi\n line */", "/**/", " //\n",
+            # runs of stars before the closing slash (even and odd), stars and slashes inside, quotes inside
+            "/** doc **/", "/**** banner ****/", "/***/", "/* a * b / c */", "/* \"q\" 'r' */", "/*/ x */", " // /* not a block\n",
+            "/* // not a line */"]
 
 
 def render(rng, toks, style):
@@ -620,6 +629,31 @@ def run_c08(rep, rng, tier):
                                         {"name": "ref", "id": 77, "type": wrap(("named", bad_name)), "params": []})
         text = render(rng, desc_toks(rng, d), rng.choice(["canon", "wild"]))
         job = {"files": {"main.fcp": text}, "root": "main.fcp", "from_string": rng.random() < 0.5}
+        if rng.random() < 0.3:
+            # the same schema behind two module imports; the second module re-uses a type name of the first one for a
+            # declaration of the OTHER kind and refers to it: both declarations must survive the merge, and the
+            # references keep pointing at a declaration of their kind
+            used2 = {dc["name"] for dc in d.decls if "name" in dc}
+            e0 = gen_desc(rng, max_decls=2, used=used2)
+            e1 = gen_desc(rng, max_decls=2, used=used2)
+            t0 = [dc for dc in e0.decls if dc["k"] in ("struct", "enum")]
+            if t0:
+                x = rng.choice(t0)
+                if x["k"] == "struct":
+                    e1.decls.append({"k": "enum", "name": x["name"], "items": [("CA", 0), ("CB", 3)]})
+                else:
+                    e1.decls.append({"k": "struct", "name": x["name"], "fields": [
+                        {"name": "cz", "id": 0, "type": ("u", 8), "params": []}]})
+                e1.decls.append({"k": "struct", "name": "ClashUser" + str(rng.randint(0, 99)), "fields": [
+                    {"name": "r0", "id": 0, "type": ("named", x["name"]), "params": []},
+                    {"name": "r1", "id": 1, "type": ("opt", ("arr", ("named", x["name"]), 2)), "params": []}]})
+            rootd = Desc()
+            rootd.decls = [{"k": "mod", "path": ["m0"]}, {"k": "mod", "path": ["sub", "m1"]}] + d.decls
+            job = {"files": {"main.fcp": render(rng, desc_toks(rng, rootd), "canon"),
+                             "m0.fcp": render(rng, desc_toks(rng, e0), "canon"),
+                             "sub/m1.fcp": render(rng, desc_toks(rng, e1), "canon")},
+                   "root": "main.fcp", "from_string": False}
+            text = job["files"]["main.fcp"]
         if rng.random() < 0.4:
             # history: the same process first parses a schema in which the names of this case mean something else
             # (the dangling name is a declared, used struct; every struct name is an enum and vice versa)
@@ -637,7 +671,8 @@ def run_c08(rep, rng, tier):
     ires = run_cases("harness.frontend", "w_parse", jobs, timeout_s=60)
     mres = run_driver_parallel(model_cases(jobs))
     for (kind, bad, holder), job, r, m in zip(meta, jobs, ires, mres):
-        text = job["files"]["main.fcp"]
+        text = job["files"]["main.fcp"] if len(job["files"]) == 1 else json.dumps(job["files"], sort_keys=True)
+        rep.hist("layout", "single file" if len(job["files"]) == 1 else "behind two module imports with a cross-kind name clash")
         rep.count(text)
         rep.hist("reference_kind", kind)
         rep.hist("history", "after a primer schema with clashing names" if job.get("primer") else "fresh")
@@ -716,7 +751,22 @@ def run_c20(rep, rng, tier):
     jobs = []
     meta = []
     for _ in range(n):
-        if rng.random() < 0.5:
+        mode = rng.random()
+        if mode < 0.15:
+            # one module imported twice by the same file: its declarations are merged at both places (the single-file
+            # twin writes them twice); nothing may treat the second import as a cycle or as already done
+            base = gen_desc(rng, max_decls=6)
+            cut = rng.randint(1, max(1, len(base.decls) - 1))
+            common, rest = base.decls[:cut], base.decls[cut:]
+            k2 = rng.randint(0, len(rest))
+            parts = rng.choice([["common", "stamp"], ["stamp"], ["lib", "util", "stamp"]])
+            sub = Desc()
+            sub.decls = common
+            mods = {"/".join(parts) + ".fcp": sub}
+            root_decls = [{"k": "mod", "path": parts}] + rest[:k2] + [{"k": "mod", "path": parts}] + rest[k2:]
+            d = Desc()
+            d.decls = common + rest[:k2] + common + rest[k2:]
+        elif mode < 0.55:
             d = gen_desc(rng, max_decls=7)
             root_decls, mods = split_desc(rng, d)
         else:
